@@ -189,7 +189,16 @@ impl Exec {
             Op::Tick { dt } => {
                 let t = self.models[0].t;
                 let nt = t.checked_add(*dt)?;
-                if nt > T_LIMIT {
+                // (ordinary histories stay below T_LIMIT; after a jump to the top of the domain the clock may still advance
+                // up to 2^64 - 1)
+                if nt > T_LIMIT && t <= T_LIMIT {
+                    return None;
+                }
+                Some(vec![Prim::Tick(nt)])
+            }
+            Op::TickTop { back } => {
+                let nt = u64::MAX - *back as u64;
+                if self.models[0].t >= nt {
                     return None;
                 }
                 Some(vec![Prim::Tick(nt)])
@@ -569,6 +578,12 @@ impl Exec {
                 .viol("tie-key-collision", "panic", "no abort".into(), msg)
                 .site("side.rs::insert_order")
                 .detail(format!("abort during {} predicted by the key-collision twin", during));
+        }
+        // known finding KF-C05-2: at the top of the clock's domain (key time 2^64 - 1) there is no later key left, the
+        // "queue behind the last order at this price" bump of the key time overflows. Named by what fails (an addition
+        // overflowing inside side.rs while the clock stands within 64 units of 2^64 - 1), not by a line number.
+        if msg.contains("attempt to add with overflow") && msg.contains("side.rs") && self.models.iter().any(|m| m.t >= u64::MAX - 64) {
+            return self.viol("panic", during, "no abort".into(), msg).site("side.rs::queue_key@clock-top").detail("tie at the last representable instants: the key time cannot be moved behind 2^64 - 1".into());
         }
         let site = if msg.contains("orderbook.rs:274") || (during == "observation" && has(&self.cfg, mon::MID) && msg.contains("subtract with overflow") && msg.contains("orderbook.rs")) {
             "orderbook.rs::mid_price"
